@@ -307,19 +307,6 @@ def gen_case(rng, malformed=False, phrase=False, unk=None):
                 cc = None                                                # no command at all
             entries.append([f, cc, gen_args(rng, names, cc, malformed) if cc else []])
         platforms.append([f"P{pi}", entries])
-    if phrase:
-        # names with a blank are requested in quote form only (the angle form is re-assembled from
-        # tokens without their white space: <a b/x.h> looks for 'ab/x.h' - C04's subject, noted in docs/C18.md)
-        def fix(v):   # noqa
-            if isinstance(v, list):
-                if len(v) == 2 and v[0] == "A" and isinstance(v[1], list) and any(" " in c for c in v[1]):
-                    return ["Q", v[1]]
-                if len(v) == 3 and v[0] == "P" and isinstance(v[2], list) and any(" " in c for c in v[2]):
-                    return ["P", False, v[2]]
-                return [fix(x) for x in v]
-            return v
-        files = {k: fix(v) for k, v in files.items()}
-        platforms = fix(platforms)
     return [sorted(files.values(), key=lambda f: f[0]), platforms, {"cli": False}]
 
 
